@@ -136,6 +136,18 @@ def run_case(chk, case):
                 hs_b = el.hs.copy()
                 hs_b[0, b_] += delta
                 eb = EL.EffectiveLindbladian(c, hs_b, is_physicality_required=False)
+                # the decomposition does not presuppose trace preservation: the Hamiltonian, anti-commutator and dissipator parts
+                # of ANY generator sum to it, in both bases, and the dissipator part is j part + k part
+                for mode in ("comp_basis", "hermitian_basis"):
+                    tot_b = eb.calc_h_part(mode) + eb.calc_j_part(mode) + eb.calc_k_part(mode)
+                    whole = eb.hs if mode == "hermitian_basis" else None
+                    if whole is None:
+                        from quara.objects.gate import convert_hs
+                        whole = convert_hs(eb.hs, c.basis(), c.comp_basis())
+                    if not close(tot_b, whole, 1e-9) or not close(eb.calc_d_part(mode), eb.calc_j_part(mode) + eb.calc_k_part(mode), 1e-9):
+                        bad("parts_sum:non_tp:%s" % mode, "first-row entry (0, %d) changed by %g: h + j + k parts do not sum to the generator (max dev %.3g)" % (
+                            b_, delta, float(np.max(np.abs(tot_b - whole)))))
+                        break
                 if bool(eb.is_tp(1e-10)) != expect_tp or bool(eb.is_eq_constraint_satisfied(1e-10)) != expect_tp or (not expect_tp and eb.is_physical(1e-10, 1e-10)):
                     bad("is_tp:first_row_entry", "first-row entry (0, %d) changed by %g: is_tp=%s, is_physical=%s; by definition trace preserving: %s" % (
                         b_, delta, eb.is_tp(1e-10), eb.is_physical(1e-10, 1e-10), expect_tp))
